@@ -14,14 +14,14 @@ theorem drop_append_len {α : Type} (a b : List α) (n : Nat) (h : n = a.length)
 theorem drop_append_add {α : Type} (a b : List α) (n k : Nat) (h : n = a.length) :
     (a ++ b).drop (n + k) = b.drop k := by
   subst h
-  rw [List.drop_append]
+  rw [List.drop_append, List.drop_of_length_le (by omega)]
   simp
 
 theorem take_append_add {α : Type} (a b : List α) (n k : Nat) (h : n = a.length) :
     (a ++ b).take (n + k) = a ++ b.take k := by
   subst h
-  rw [List.take_append]
-  simp
+  rw [List.take_append, List.take_of_length_le (by omega)]
+  congr 2; omega
 
 @[simp] theorem rd_length (bs : List Nat) (off n : Nat) (h : off + n ≤ bs.length) :
     (rd bs off n).length = n := by
@@ -34,9 +34,9 @@ theorem wr_length (bs : List Nat) (off : Nat) (v : List Nat) (h : off + v.length
 /-- Reading inside the middle part. -/
 theorem rd_mid (a x c : List Nat) (b k n : Nat) (hb : b = a.length) (h : k + n ≤ x.length) :
     rd (a ++ x ++ c) (b + k) n = rd x k n := by
-  subst hb
+  have e : a ++ x ++ c = a ++ (x ++ c) := List.append_assoc ..
   unfold rd
-  rw [List.append_assoc, drop_append_add a _ _ _ rfl, List.drop_append_of_le_length (by omega),
+  rw [e, drop_append_add a _ _ _ hb, List.drop_append_of_le_length (by omega),
     List.take_append_of_le_length (by simp; omega)]
 
 theorem rd_mid0 (a x c : List Nat) (b n : Nat) (hb : b = a.length) (h : n ≤ x.length) :
@@ -46,19 +46,19 @@ theorem rd_mid0 (a x c : List Nat) (b n : Nat) (hb : b = a.length) (h : n ≤ x.
 
 theorem rdN_mid (a x c : List Nat) (b k w : Nat) (hb : b = a.length) (h : k + w ≤ x.length) :
     rdN (a ++ x ++ c) (b + k) w = rdN x k w := by
-  simp [rdN, rd_mid a x c b k w hb h]
+  unfold rdN; rw [rd_mid a x c b k w hb h]
 
 theorem rdN_mid0 (a x c : List Nat) (b w : Nat) (hb : b = a.length) (h : w ≤ x.length) :
     rdN (a ++ x ++ c) b w = rdN x 0 w := by
-  simp [rdN, rd_mid0 a x c b w hb h]
+  unfold rdN; rw [rd_mid0 a x c b w hb h]
 
 /-- Writing inside the middle part. -/
 theorem wr_mid (a x c : List Nat) (b k : Nat) (w : List Nat) (hb : b = a.length)
     (h : k + w.length ≤ x.length) : wr (a ++ x ++ c) (b + k) w = a ++ wr x k w ++ c := by
-  subst hb
+  have e : a ++ x ++ c = a ++ (x ++ c) := List.append_assoc ..
   unfold wr
-  rw [List.append_assoc, take_append_add a _ _ _ rfl, List.take_append_of_le_length (by omega)]
-  rw [Nat.add_assoc, drop_append_add a _ _ _ rfl, List.drop_append_of_le_length (by omega)]
+  rw [e, take_append_add a _ _ _ hb, List.take_append_of_le_length (by omega)]
+  rw [Nat.add_assoc, drop_append_add a _ _ _ hb, List.drop_append_of_le_length (by omega)]
   simp [List.append_assoc]
 
 theorem wr_mid0 (a x c : List Nat) (b : Nat) (w : List Nat) (hb : b = a.length)
@@ -69,15 +69,16 @@ theorem wr_mid0 (a x c : List Nat) (b : Nat) (w : List Nat) (hb : b = a.length)
 /-- Overwriting a prefix. -/
 theorem wr_zero (x y r : List Nat) (h : x.length = y.length) : wr (x ++ r) 0 y = y ++ r := by
   unfold wr
-  simp [h]
+  simp
   rw [← h]; simp
 
 /-- Overwriting the part after a prefix. -/
 theorem wr_after (p x y r : List Nat) (k : Nat) (hk : k = p.length) (h : x.length = y.length) :
     wr (p ++ x ++ r) k y = p ++ y ++ r := by
-  subst hk
+  have := wr_mid p x r k 0 y hk (by omega)
+  simp only [Nat.add_zero] at this
+  rw [this]
   unfold wr
-  rw [List.append_assoc, List.take_append_of_le_length (by omega)]
   simp
   rw [← h]; simp
 
